@@ -146,7 +146,28 @@ def rule_LINK(ctx):
     ctx.floor(rid, 2, 'link obligations')
 
 
+def rule_COMP(ctx):
+    rid = 'A1c'
+    ctx.rule(rid, 'unit_to_dictionary is the composition physical_to_dictionary(unit_to_physical'
+             '(points)) of the two agreeing transforms')
+    f = ctx.program.func('Prior.unit_to_dictionary')
+    rets = [n for n in walk_no_nested(f.node) if isinstance(n, ast.Return)]
+    ok = False
+    if len(rets) == 1 and isinstance(rets[0].value, ast.Call):
+        o = rets[0].value
+        if dotted(o.func) == 'self.physical_to_dictionary' and len(o.args) == 1 and \
+                isinstance(o.args[0], ast.Call) and \
+                dotted(o.args[0].func) == 'self.unit_to_physical' and \
+                len(o.args[0].args) == 1 and isinstance(o.args[0].args[0], ast.Name) and \
+                o.args[0].args[0].id == [p for p in f.params if p != f.self_name][0]:
+            ok = True
+    ctx.ob(rid, 'Prior.unit_to_dictionary:composition', ok, f.where(),
+           'unit_to_dictionary(points) = physical_to_dictionary(unit_to_physical(points))' if ok
+           else 'unit_to_dictionary is not the plain composition of the two transforms')
+
+
 def run(ctx):
+    rule_COMP(ctx)
     rule_T1(ctx, 'Prior.add_parameter', {'keys', 'dists'})
     rule_T7(ctx, 'Prior.add_parameter', 'keys')
     rule_R1(ctx)
